@@ -26,7 +26,18 @@ def drm_selection(allow_none=True):
     return st.one_of(*opts)
 
 
-def event_options():
+def _edge_durations(ts: int):
+    """durations (in schedule ticks) whose 90 kHz value sits around the 32-bit line and below the 33-bit limit of
+    the SCTE-35 break_duration field, while the value itself still fits the 32-bit emsg event_duration"""
+    vals = set()
+    for v90 in (2**31, 2**32 - 1, 2**32, 2**32 + 105, 3 * 2**31, 2**33 - 1):
+        for d in (v90 * ts // 90000, -(-v90 * ts // 90000)):
+            if 1 <= d < 2**32 and d * 90000 // ts < 2**33:
+                vals.add(d)
+    return sorted(vals)
+
+
+def event_options(wide_duration: bool = False):
     """events= plus schedule options for the selected generators (interval > 0: the documented domain)."""
     def sched(prefix):
         # the interval is drawn in milliseconds (>= 100 ms) and converted to the schedule's timescale, so the
@@ -39,7 +50,8 @@ def event_options():
                     lambda ms: str(max(1, ms * ts // 1000))),
             }, optional={
                 f"{prefix}__count": st.integers(0, 30).map(str),
-                f"{prefix}__duration": st.integers(1, 2000).map(str),
+                f"{prefix}__duration": (st.one_of(st.integers(1, 2000), st.integers(1, 2000), st.sampled_from(_edge_durations(ts)))
+                                        if wide_duration else st.integers(1, 2000)).map(str),
                 f"{prefix}__inband": st.sampled_from(["1", "0"]),
                 f"{prefix}__start": st.integers(0, 60000).map(lambda ms: str(ms * ts // 1000)),
                 f"{prefix}__version": st.sampled_from(["0", "1"]),
